@@ -30,6 +30,7 @@ RULE += '; body outcomes include a falsy exception instance; disposables may fai
 RULE += '; disposables may compare equal to each other'
 RULE += '; a disposable may raise its own CancelledError from its exit'
 RULE += "; disposables that absorb an interruption; entering that ends with the disposable's own CancelledError"
+RULE += '; scopes opened by a task that absorbed a cancellation earlier; disposables that probe the visible state / work inside a block of their own while entering'
 LEVEL_TEXT = (
     "Fault enumeration: the disposable behaviour space is enumerated completely for <=2 disposables (thorough) and "
     "sampled for 3-4; for cancelled bodies every loop iteration is a crash point. The oracle is the doubles' call ledger: "
@@ -83,10 +84,12 @@ def program(case):
             "body": [{"k": "sleep", "t": 1.25}],
         }  # fmt: skip
         pre = [{"k": "spawn", "via": "asyncio", "body": [{"k": "sleep", "t": case["rival"]}, rival_scope]}]
+    # the task that opens the scope absorbed a cancellation request earlier (it is running clean-up code)
+    absorbed = [{"k": "absorb_cancel"}] if case.get("absorbed_cancel") else []
     if case["outer"]:
         return {"body": [*pre, {"k": "scope", "mode": "async", "name": "outer", "state": [{"type": "A", "v": 9}, {"type": "B", "v": 9}],
-                                "disp": None, "body": [inner, tail]}]}  # fmt: skip
-    return {"body": [*pre, inner, tail]}
+                                "disp": None, "body": [*absorbed, inner, tail]}]}  # fmt: skip
+    return {"body": [*pre, *absorbed, inner, tail]}
 
 
 def contains(exc, target, seen=None) -> bool:
@@ -110,7 +113,16 @@ def contains(exc, target, seen=None) -> bool:
 
 def judge(case, run, res, out: Outcome, inject):
     first = 1 if case.get("rival") else 0
-    path = (first, 0) if case["outer"] else (first,)
+    # what a disposable sees while it is entering is the state visible where the scope is opened - whatever its siblings do
+    for e in run.log:
+        if e["ev"] == "d_enter_probe":
+            opened = next((b for b in run.log if b["ev"] == "block_enter" and tuple(b["path"]) == tuple(e["path"])), None)
+            if opened is not None and opened["fp"]["state"] != e["state"]:
+                diff = {k: (opened["fp"]["state"][k], v) for k, v in e["state"].items() if opened["fp"]["state"].get(k) != v}
+                out.violate("enter", "C08.enter/disposable-sees-state-that-is-not-the-opening-position's", f"disposable {e['j']} at its {e['when']}: {diff}")
+                break
+    shift = 1 if case.get("absorbed_cancel") else 0  # the absorbing step sits right before the scope
+    path = (first, shift) if case["outer"] else (first + shift,)
     n = len(case["disp"])
     if case.get("rival"):
         rpath = (0, "t", 1)
@@ -316,7 +328,10 @@ def _disp_strategy():
         st.builds(lambda t: {"b": "suspend_ok", "t": t, "absorb": True}, times),
     )
     # entering that ends with the disposable's OWN CancelledError (nobody cancelled the scope's task) is a failed enter
-    mostly_ok = st.one_of(st.just({"b": "ok"}), st.just({"b": "ok"}), beh, beh, st.just({"b": "raise_cancelled"}), st.just({"b": "suspend_raise_cancelled", "t": 0.25}))
+    # ... and entering that looks at the visible state (before and after its own work) / works inside a block of its own
+    probing = st.sampled_from([{"b": "ok", "probe": True}, {"b": "suspend_ok", "t": 0.5, "probe": True}, {"b": "suspend_ok", "t": 0.25, "probe": True, "own_block": {"type": "A", "v": 77}},
+                               {"b": "suspend_ok", "t": 0.75, "probe": True, "own_block": {"type": "B", "v": 78}}])  # fmt: skip
+    mostly_ok = st.one_of(st.just({"b": "ok"}), st.just({"b": "ok"}), beh, beh, st.just({"b": "raise_cancelled"}), st.just({"b": "suspend_raise_cancelled", "t": 0.25}), probing, probing)
     exit_beh = st.one_of(beh, beh, beh, st.just({"b": "ok", "ret": True}), st.just({"b": "raise_cancelled"}))
     return st.builds(
         lambda e, y, x, a, tw: {"enter": e, "yields": y, "exit": x, "as": a, "twin": tw},
@@ -327,7 +342,8 @@ def _disp_strategy():
 
 def strategy(tier):
     return st.builds(
-        lambda outer, state, disp, dobj, body, rival: {"outer": outer, "state": state, "disp": disp, "disp_obj": dobj, "body": body, "inject": None, "rival": rival},
+        lambda outer, state, disp, dobj, body, rival: {"outer": outer, "state": state, "disp": disp, "disp_obj": dobj, "body": body, "inject": None, "rival": rival,
+                                                       "absorbed_cancel": body != "cancel" and len(state) == 1},
         st.booleans(),
         st.lists(P.sv_strategy(), max_size=2),
         st.lists(_disp_strategy(), min_size=0, max_size=4),
